@@ -465,6 +465,8 @@ func (a Atom) String() string {
 		return neg + "streq(" + a.Name + ")"
 	case "len":
 		return neg + "len" + a.Name
+	case "hasprefix":
+		return neg + "hasprefix"
 	case "or":
 		var ps []string
 		for _, x := range a.Or {
@@ -521,6 +523,9 @@ func (p *Prov) atomOf(cond ssa.Value, pol bool) Atom {
 			if s, ok := constString(x.Call.Args[1]); ok && s == "$" {
 				return Atom{Kind: "dollar", Pol: pol, X: x.Call.Args[0], Src: cond}
 			}
+		}
+		if k == "strings.HasPrefix" {
+			return Atom{Kind: "hasprefix", Pol: pol, X: x.Call.Args[0], Name: "HasPrefix", Src: cond}
 		}
 		return Atom{Kind: "other", Pol: pol, Name: "call " + shortKey(k), Src: cond}
 	case *ssa.BinOp:
